@@ -35,6 +35,8 @@ def DTri (c : Cpu) : Prop := c.seen = c.mux1.out
 /-- The selection mux0 holds is the one `select_tr` would make now. -/
 def Fresh (k : Consts) (c : Cpu) : Prop := c.mux0.selected = selectTr k c.ss [c.ss, c.tt]
 
+instance (k : Consts) (c : Cpu) : Decidable (Fresh k c) := by unfold Fresh; infer_instance
+
 /-- No `idle` before the last `ss`/`tt` in the dirty order. -/
 def orderOk : List Src → Bool
   | [] => true
@@ -669,6 +671,31 @@ theorem quiescent_step (k : Consts) (c : Cpu) (sets : List (Src × Value)) (hq :
     (ho : orderOk (dedup (sets.map (·.1))) = true) : Quiescent k (step k c sets) :=
   let p := step_post k c sets hq
   ⟨p.dss, p.dtt, p.didle, p.dtr, p.dtri ho⟩
+
+/-- A history of propagations on one CPU, starting from `mux_init`. -/
+def runCpu (k : Consts) (props : List (List (Src × Value))) : Cpu :=
+  props.foldl (step k) Cpu.init
+
+/-- The dirty orders of a history never have `idle` ahead of `ss`/`tt`. -/
+def OrdersOk (props : List (List (Src × Value))) : Prop :=
+  ∀ p ∈ props, orderOk (dedup (p.map (·.1))) = true
+
+instance (props : List (List (Src × Value))) : Decidable (OrdersOk props) := by
+  unfold OrdersOk; infer_instance
+
+theorem runCpu_quiescent (k : Consts) (props : List (List (Src × Value))) (ho : OrdersOk props) :
+    Quiescent k (runCpu k props) := by
+  unfold runCpu
+  have : ∀ (props : List (List (Src × Value))) (c : Cpu), Quiescent k c → OrdersOk props →
+      Quiescent k (props.foldl (step k) c) := by
+    intro props
+    induction props with
+    | nil => intro c h _; exact h
+    | cons p ps ih =>
+      intro c h ho
+      exact ih _ (quiescent_step k c p h (ho p (List.mem_cons_self ..)))
+        (fun q hq => ho q (List.mem_cons_of_mem _ hq))
+  exact this props _ (quiescent_init k) ho
 
 /-! ### reading off the values -/
 
